@@ -169,3 +169,30 @@ impl CachedBlocks {
     None
   }
 }
+
+#[cfg(gb_dynarec_verif)]
+impl CachedBlocks {
+  /// Every cached block as (region index, bank tag, address, guest bytes
+  /// translated, arena offset, translated length)
+  pub fn verif_entries(&self) -> Vec<(u8, u16, u16, usize, usize, usize)> {
+    let regions = [
+      &self.rom_low, &self.rom_high, &self.cart_ram,
+      &self.wram_low, &self.wram_high, &self.high_ram,
+    ];
+    let mut entries = Vec::new();
+    for (index, region) in regions.iter().enumerate() {
+      for (key, block) in region.cache.iter() {
+        let location = MemoryLocation::from_u32(*key);
+        entries.push((
+          index as u8,
+          location.bank,
+          location.address,
+          block.bytes_translated,
+          block.offset,
+          block.length,
+        ));
+      }
+    }
+    entries
+  }
+}
